@@ -9,6 +9,15 @@ SOLVE_INTERNAL_CALLEES = ("complete_proof", "decay_nogood_activities", "declare_
                           "solve_internal", "declare_solving", "declare_conflict", "declare_solution_found")
 
 
+def method_view(lib, owner, name, keep=(), same_type_only=False, trait=None):
+    """`lib.method(owner, name)` with the private helpers of its file spliced in — except those in
+    `keep`, which rules look for as calls"""
+    from ..inline import view
+    f = lib.method(owner, name, trait) if trait else lib.method(owner, name)
+    return view(lib, f, want=lambda g: g.file == f.file and g.kind != "Closure" and g.vis != "pub" and g.name not in keep
+                and (not same_type_only or owner in (g.self_ty or "")))
+
+
 def solve_internal(lib):
     """the search loop with every helper spliced in that is not one of the functions it called on the
     pinned tree (those are anchors of their own): splitting the loop body into private methods does
